@@ -91,11 +91,14 @@ CodeRow(ny, g, j) == Clip(RoundDiv(Pole(ny, g) - Half(g) - j, Cell(g)), 0, ny - 
 \* mode "full": every odd unit of three periods / every odd latitude unit, plus one period moved by +-far turns
 \* mode "edge": the two units next to every cell edge and every cell centre (g is large there: a point 1/(4g) of
 \*              a cell away from an edge must already resolve to the right cell)
+\* mode "grid": the cell edges and cell centres themselves (every multiple of half a cell, the seam at the map edge and
+\*              the poles included).  On an edge the property admits either adjacent cell: the expectation is a SET.
 LonBase(x) ==
     LET P == Period(x.nx, x.g)  H == HalfP(x.nx, x.g) IN
     IF x.mode = "full" THEN {k \in (0 - P - H)..(P + H) : LonOK(k)}
+    ELSE IF x.mode = "grid" THEN {b * Half(x.g) : b \in (0 - 3 * x.nx)..(3 * x.nx)}
     ELSE {b * Half(x.g) + d : b \in (0 - 3 * x.nx)..(3 * x.nx), d \in {-1, 1}}
-LonOne(x) == {k \in LonBase(x) : 0 - HalfP(x.nx, x.g) < k /\ k < HalfP(x.nx, x.g)}
+LonOne(x) == {k \in LonBase(x) : 0 - HalfP(x.nx, x.g) <= k /\ k <= HalfP(x.nx, x.g)}
 \* whole turns of the far-offset points: the wanted number, reduced so that every intermediate value stays below 2^30
 Far(x) == Greater(3, Lesser(x.far, 268435456 \div Period(x.nx, x.g)))
 LonFar(x) == {k + s * Far(x) * Period(x.nx, x.g) : k \in LonOne(x), s \in {-1, 1}}
@@ -104,6 +107,7 @@ LatPts(x) ==
     LET Q == Pole(x.ny, x.g) IN
     {Q, 0 - Q} \cup
     (IF x.mode = "full" THEN {j \in (0 - Q)..Q : LatOK(x.ny, x.g, j)}
+     ELSE IF x.mode = "grid" THEN {Q - b * Half(x.g) : b \in 0..(2 * x.ny)}
      ELSE {j \in {Q - b * Half(x.g) + d : b \in 0..(2 * x.ny), d \in {-1, 1}} : LatOK(x.ny, x.g, j)})
 
 \* ---------------------------------------------------------------- the sentences of the property
@@ -156,14 +160,54 @@ CodeShape(x) ==
     /\ \A k \in LonPts(x) : CodeCol(x.v, x.nx, x.g, k) = Col(x.v, x.nx, x.g, k)
     /\ \A j \in LatPts(x) : CodeRow(x.ny, x.g, j) = Row(x.ny, x.g, j)
 
+\* ---------------------------------------------------------------- points on a cell edge: admissible sets
+\* "points within a rounding tolerance of a cell boundary may resolve to either adjacent cell": closed containment
+InColumnClosed(v, nx, g, col, k) == ((k - West(v, nx, g, col)) % Period(nx, g)) <= Cell(g)
+AdmCols(v, nx, g, k) == {col \in 0..(nx - 1) : InColumnClosed(v, nx, g, col, k)}
+AdmRows(ny, g, j) == {r \in 0..(ny - 1) : InRow(ny, g, r, j)}
+AdmSample(v, nx, ny, g, k, j) == {MapValue(nx, r, col) : r \in AdmRows(ny, g, j), col \in AdmCols(v, nx, g, k)}
+OnLonEdge(v, nx, g, k) == XFromLeft(v, nx, g, k) % Cell(g) = 0
+OnLatEdge(ny, g, j) == (Pole(ny, g) - j) % Cell(g) = 0
+\* the admissible cells of an even unit are exactly the cells of its two odd neighbours: one cell inside a cell, the two
+\* cells sharing the edge on an edge (columns 0 and nx-1 of the same row at the seam), four at a corner, one row at a pole;
+\* periodic; and the algorithm of samplers.py (round-half-even, clip) picks an admissible one
+Boundary(x) ==
+    LET Q == Pole(x.ny, x.g)  P == Period(x.nx, x.g) IN
+    /\ \A k \in LonPts(x) :
+          LET A == AdmCols(x.v, x.nx, x.g, k) IN
+          /\ A = {Col(x.v, x.nx, x.g, k - 1), Col(x.v, x.nx, x.g, k + 1)}
+          /\ Cardinality(A) = (IF OnLonEdge(x.v, x.nx, x.g, k) /\ x.nx > 1 THEN 2 ELSE 1)
+          /\ (XFromLeft(x.v, x.nx, x.g, k) = 0) => A = {0, x.nx - 1}
+          /\ \A t \in {-1, 1, Far(x)} : AdmCols(x.v, x.nx, x.g, k + t * P) = A
+          /\ CodeCol(x.v, x.nx, x.g, k) \in A
+    /\ \A j \in LatPts(x) :
+          LET R == AdmRows(x.ny, x.g, j) IN
+          /\ R = {Row(x.ny, x.g, i) : i \in {j - 1, j + 1} \cap ((0 - Q)..Q)}
+          /\ Cardinality(R) = (IF OnLatEdge(x.ny, x.g, j) /\ j # Q /\ j # 0 - Q THEN 2 ELSE 1)
+          /\ CodeRow(x.ny, x.g, j) \in R
+    /\ \A k \in LonPts(x), j \in LatPts(x) :
+          LET S == AdmSample(x.v, x.nx, x.ny, x.g, k, j) IN
+          S # {} /\ S \subseteq 0..(x.nx * x.ny - 1) /\ Cardinality(S) <= 4
+
 \* ---------------------------------------------------------------- the table handed to the harness
-Table(x) ==
+\* (grid family: every entry of cells is the sorted sequence of admissible values instead of one value)
+GridStrictTable(x) ==
+    LET ks == SetToSortSeq(LonPts(x), <)
+        js == SetToSortSeq(LatPts(x), <)
+        cf == TLCEval([k \in LonPts(x) |-> AdmCols(x.v, x.nx, x.g, k)])
+        rf == TLCEval([j \in LatPts(x) |-> AdmRows(x.ny, x.g, j)])
+    IN [v |-> x.v, nx |-> x.nx, ny |-> x.ny, g |-> x.g, mode |-> x.mode, far |-> Far(x), ks |-> ks, js |-> js,
+        cells |-> [a \in DOMAIN js |-> [b \in DOMAIN ks |->
+                     SetToSortSeq({MapValue(x.nx, r, col) : r \in rf[js[a]], col \in cf[ks[b]]}, <)]]]
+StrictTable(x) ==
     LET ks == SetToSortSeq(LonPts(x), <)
         js == SetToSortSeq(LatPts(x), <)
         cf == TLCEval([k \in LonPts(x) |-> Col(x.v, x.nx, x.g, k)])
         rf == TLCEval([j \in LatPts(x) |-> Row(x.ny, x.g, j)])
     IN [v |-> x.v, nx |-> x.nx, ny |-> x.ny, g |-> x.g, mode |-> x.mode, far |-> Far(x), ks |-> ks, js |-> js,
         cells |-> [a \in DOMAIN js |-> [b \in DOMAIN ks |-> MapValue(x.nx, rf[js[a]], cf[ks[b]])]]]
+
+Table(x) == IF x.mode = "grid" THEN GridTable(x) ELSE StrictTable(x)
 
 \* ---------------------------------------------------------------- state space: one state per configuration
 \* (only the first configuration of every chain is an initial state, so that TLC's workers share the rest)
@@ -180,18 +224,21 @@ Init == c \in Roots
 Next == c' \in Succ(c)
 Spec == Init /\ [][Next]_c
 
-UniqueInv == Unique(c)
-InRangeInv == InRange(c)
-PeriodicInv == Periodic(c)
-DirectionInv == Direction(c)
+Strict == c.mode # "grid"          \* the test angles of the configuration are never on a cell edge
+UniqueInv == Strict => Unique(c)
+InRangeInv == Strict => InRange(c)
+PeriodicInv == Strict => Periodic(c)
+DirectionInv == Strict => Direction(c)
 ZeroAtInv == ZeroAt(c)
-TopRowInv == TopRow(c)
-MirrorInv == Mirror(c)
-ClosedFormInv == ClosedForm(c)
-CodeShapeInv == CodeShape(c)
+TopRowInv == Strict => TopRow(c)
+MirrorInv == Strict => Mirror(c)
+ClosedFormInv == Strict => ClosedForm(c)
+CodeShapeInv == Strict => CodeShape(c)
+BoundaryInv == (~Strict) => Boundary(c)
 \* refinement step: a map with twice as many columns / rows splits every cell in two (action property over Next)
 Refines ==
-    [][ /\ (c'.nx = 2 * c.nx /\ c'.v = c.v) =>
+    [][ Strict =>
+        /\ (c'.nx = 2 * c.nx /\ c'.v = c.v) =>
             \A k \in LonOne(c) : \A d \in {-1, 1} : Col(c'.v, c'.nx, c'.g, 2 * k + d) \div 2 = Col(c.v, c.nx, c.g, k)
         /\ (c'.ny = 2 * c.ny) =>
             \A j \in LatPts(c) : (j % 2 = 1) => \A d \in {-1, 1} : Row(c'.ny, c'.g, 2 * j + d) \div 2 = Row(c.ny, c.g, j) ]_c
